@@ -55,6 +55,24 @@ def make_event(case):
     for n in preorder(root):
         objs.of(n)
     h = project.snapshot(objs, payload=False)
+    if case.get("embed"):
+        # the same shape as a SUBTREE of a larger tree: layout() is called on a node that has a parent (and a sibling); the
+        # structure above is taken from the stand-alone build, the coordinates from the embedded nodes (same pre-order)
+        try:
+            filler = shapes.build(((None, None), None), case["cls"])
+            sub = shapes.build(s, case["cls"])
+            host = shapes.build((None, None), case["cls"])
+            if case["embed"] == "L":
+                host.set_left(sub); host.set_right(filler)
+            else:
+                host.set_left(filler); host.set_right(sub)
+            root = sub
+            objs = project.ObjTable()
+            for n in preorder(root):
+                objs.of(n)
+        except BaseException as e:  # noqa
+            return {"h": {"n": 0}, "root": 0, "ux": 0, "uy": 0, "outcome": "constructing the tree raised " + type(e).__name__, "exact": True, "X": [], "Y": [], "X2": [], "Y2": [],
+                    "XM": [], "YM": [], "m": {}, "m2": {}, "mirror_ok": True}
     ev = {"h": h, "root": 1, "ux": scaled(ux)[0], "uy": scaled(uy)[0], "outcome": "ok", "exact": True,
           "X": [], "Y": [], "X2": [], "Y2": [], "XM": [], "YM": [], "m": {}, "m2": {}, "mirror_ok": True}
     try:
@@ -142,10 +160,18 @@ def domain(ctx):
             cases.append({"shape": s, "cls": "btn", "mult": (1.0, 1.0), "full": True})
     for _ in range(150 if ctx.quick else 3000):
         cases.append({"shape": random_shape(rng, rng.randint(n + 1, 18)), "cls": rng.choice(["btn", "expr"]), "mult": rng.choice(MULTS)})
+    for s in shapes.shapes_upto(6 if ctx.quick else 8):
+        if shapes.size(s) >= 1:
+            for side in ("L", "R"):
+                cases.append({"shape": s, "cls": "btn", "mult": (1.0, 1.0) if shapes.size(s) > 4 else (2.0, 1.0), "embed": side})
+                if 2 <= shapes.size(s) <= 5:
+                    cases.append({"shape": s, "cls": "expr", "mult": (1.0, 1.0), "embed": side})
+    for k, s in enumerate(fixed_family(300 if ctx.quick else 2000)):
+        cases.append({"shape": s, "cls": "btn", "mult": (1.0, 1.0), "fixed": True, "embed": "LR"[k % 2]})
     nfixed = 2500 if ctx.quick else 12000
     for s in fixed_family(nfixed):
         cases.append({"shape": s, "cls": "btn", "mult": (1.0, 1.0), "fixed": True})
-    return cases, ("a fixed family of %d larger shapes (11..48 nodes, half full binary trees, half with one-child nodes); " % nfixed) + ("all full binary trees with 11, 13%s nodes; all %d shapes with <= %d nodes as plain nodes (three multiplier pairs up to 5 nodes) and as expression-shaped nodes; seeded random shapes up to 18 nodes; "
+    return cases, ("every shape <= %d nodes also as the left / right subtree of a larger tree (layout called on a node that has a parent); " % (6 if ctx.quick else 8)) + ("a fixed family of %d larger shapes (11..48 nodes, half full binary trees, half with one-child nodes); " % nfixed) + ("all full binary trees with 11, 13%s nodes; all %d shapes with <= %d nodes as plain nodes (three multiplier pairs up to 5 nodes) and as expression-shaped nodes; seeded random shapes up to 18 nodes; "
                    "first call, second call, fresh mirrored tree" % ("" if ctx.quick else ", 15", len(shapes.shapes_upto(n)), n))
 
 
@@ -191,8 +217,8 @@ def run(ctx, cases=None):
             if shapes.size(s) > bound and x in KNOWN_CLAUSES and not (c.get("full") and shapes.size(s) <= 15) and not c.get("fixed"):
                 beyond += 1
                 continue
-            res.violations.append(Violation("C18|%s|%s" % (x, canon(s)), "layout of %s shape %s x%s: %s" % (c["cls"], canon(s), c["mult"], x),
-                                            {"shape": c["shape"], "cls": c["cls"], "mult": list(c["mult"]), "full": bool(c.get("full")), "fixed": bool(c.get("fixed"))}, [x]))
+            res.violations.append(Violation("C18|%s|%s" % (x, canon(s)), "layout of %s shape %s%s x%s: %s" % (c["cls"], canon(s), " as the %s subtree of a larger tree" % c["embed"] if c.get("embed") else "", c["mult"], x),
+                                            {"shape": c["shape"], "cls": c["cls"], "mult": list(c["mult"]), "full": bool(c.get("full")), "fixed": bool(c.get("fixed")), "embed": c.get("embed", "")}, [x]))
     res.extra["failing_cases_by_clause"] = failing
     res.extra["known_clause_failures_beyond_exhaustive_bound_not_judged"] = beyond
     return res
